@@ -890,21 +890,23 @@ Proof.
       rewrite (st_gframe_TL g c Hc Htl), Hw.
       assert ((c - d <? 0) || negb (c - d <? c) || (w <? c - (c - d)) = false) as -> by lia.
       rewrite (gi_held _ _ G Hd0 (c - d)) by lia. cbn [fst snd]. rewrite Z.eqb_refl. cbn [negb].
-      rewrite Htl. unfold st_TLz at 2. rewrite st_TL_firstn by lia. fold (st_TLz (c - d)).
+      rewrite Htl. unfold st_TLz at 1. rewrite st_TL_firstn by lia. fold (st_TLz (c - d)).
       rewrite st_tl_eqb_refl. cbn [negb].
-      unfold st_gframe. cbn [sg_tl sg_cells sg_saves sg_log].
+      cbn [st_exec_one]. unfold st_gframe. cbn [sg_tl sg_cells sg_saves sg_log].
       replace (Z.of_nat (length (st_TLz (c - d)))) with (c - d) by (unfold st_TLz; rewrite st_TL_length; lia).
-      replace ([RSave c] ++ [RAdvance (st_E c)]) with (st_resim_reqs 1 false c) by reflexivity.
-      replace c with (c - d + 1 + Z.of_nat (Z.to_nat (d - 1))) at 4 by lia.
-      rewrite <- st_resim_reqs_app.
+      change [RSave c; RAdvance (st_E c)] with (st_resim_reqs 1 false c).
+      assert (Eapp : st_resim_reqs (Z.to_nat (d - 1)) false (c - d + 1) ++ st_resim_reqs 1 false c
+                     = st_resim_reqs (Z.to_nat d) false (c - d + 1)).
+      { replace (Z.to_nat d) with (Z.to_nat (d - 1) + 1)%nat by lia. rewrite st_resim_reqs_app.
+        f_equal. f_equal. lia. }
+      rewrite Eapp.
       rewrite st_exec_pairs; cbn [sg_tl sg_saves sg_cells sg_log]; try lia; auto; [|apply st_TLz_S; lia].
-      replace (Z.to_nat (d - 1) + 1)%nat with (Z.to_nat d) by lia.
       replace (c - d + 1 + Z.of_nat (Z.to_nat d)) with (c + 1) by lia.
       rewrite <- app_assoc. reflexivity.
-    + cbn [app]. replace ([RSave c; RAdvance (st_E c)]) with (st_resim_reqs 1 false c) by reflexivity.
+    + cbn [app]. change [RSave c; RAdvance (st_E c)] with (st_resim_reqs 1 false c).
       rewrite st_exec_pairs by (try lia; auto). reflexivity.
   - cbn [app st_exec st_exec_one st_cells_after sg_cells_after].
-    rewrite (st_gframe_TL g c Hc Htl), Htl, (st_TLz_S c Hc), Nat.add_0_r.
+    rewrite (st_gframe_TL g c Hc Htl), Htl, <- (st_TLz_S c Hc), Nat.add_0_r.
     destruct s; reflexivity.
 Qed.
 
@@ -959,7 +961,6 @@ Proof.
         apply W'. lia.
       * exact Hlog.
   - assert (Hn0 : st_nsv c = 0%nat) by (unfold st_nsv; assert ((0 <? d) = false) as -> by lia; reflexivity).
-    assert ((0 <? d) = false) as Ed by lia. rewrite Ed in Hyc.
     subst s'' g''. rewrite Hn0. cbn [st_cells_after sg_cells_after]. split; [|split].
     + unfold st_tie. cbn [st_with_cells st_sync st_cells]. rewrite Hyc, Hcells. exact T.
     + constructor; cbn [st_with_cells st_cells]; rewrite Hcells.
@@ -1022,5 +1023,276 @@ Proof.
     split; [exact P1|]. split; [exact P2|]. split; [exact P3|]. split; [exact P4|].
     cbn [st_with_cells st_history sg_saves sg_log]. rewrite Hh'. split; [exact H1|]. split; reflexivity.
 Qed.
+
+(* ----- the initial state ----- *)
+Lemma st_nth_repeat {A} : forall (x d0 : A) n p, (p < n)%nat -> nth p (repeat x n) d0 = x.
+Proof. induction n as [|n IH]; intros [|p] H; cbn in *; try lia; auto. apply IH. lia. Qed.
+
+Lemma st_map_repeat {A B} (f : A -> B) : forall x n, map f (repeat x n) = repeat (f x) n.
+Proof. induction n as [|n IH]; cbn; [reflexivity|]. rewrite IH. reflexivity. Qed.
+
+Lemma st_updz_app {A} : forall (a : list A) x y b, updz (a ++ x :: b) (length a) y = a ++ y :: b.
+Proof. induction a as [|z a IH]; intros; cbn; [reflexivity|]. rewrite IH. reflexivity. Qed.
+
+Lemma st_repeat_snoc {A} : forall (x : A) n l, repeat x n ++ x :: l = repeat x (S n) ++ l.
+Proof. induction n as [|n IH]; intro l; cbn; [reflexivity|]. f_equal. apply IH. Qed.
+
+Lemma st_set_delays_ok : forall n i y,
+  s_queues y = repeat (with_delay q_new k) i ++ repeat q_new n ->
+  st_set_delays y (st_zrange (Z.of_nat i) n) k = Ok (with_queues y (repeat (with_delay q_new k) (i + n))).
+Proof.
+  induction n as [|n IH]; intros i y Hq.
+  - cbn [st_zrange st_set_delays]. rewrite Nat.add_0_r. cbn [repeat] in Hq. rewrite app_nil_r in Hq.
+    rewrite <- Hq. destruct y; reflexivity.
+  - cbn [st_zrange st_set_delays]. unfold set_queue_delay.
+    assert (Hlen : length (s_queues y) = (i + S n)%nat) by (rewrite Hq, app_length, !repeat_length; reflexivity).
+    assert (((Z.of_nat i <? 0) || (Z.of_nat (length (s_queues y)) <=? Z.of_nat i)) = false) as -> by lia.
+    unfold qnth. rewrite Nat2Z.id, Hq.
+    rewrite app_nth2 by (rewrite repeat_length; lia). rewrite repeat_length, Nat.sub_diag. cbn [repeat nth].
+    assert (Esd : set_frame_delay q_new k = Ok (with_delay q_new k, [])) by reflexivity.
+    rewrite Esd. cbn [res_bind].
+    replace (Z.of_nat i + 1) with (Z.of_nat (S i)) by lia.
+    rewrite IH.
+    + replace (S i + n)%nat with (i + S n)%nat by lia. reflexivity.
+    + cbn [with_queues s_queues].
+      replace i with (length (repeat (with_delay q_new k) i)) at 2 by apply repeat_length.
+      rewrite st_updz_app. apply st_repeat_snoc.
+Qed.
+
+Definition st_s0 : st_state :=
+  st_mk np w d (mks w (repeat NULL (Z.to_nat (w + 1))) NULL NULL 0 (repeat (with_delay q_new k) npn))
+        (repeat cs_default npn) [] [] (repeat (NULL, None) (Z.to_nat (w + 1))).
+
+Lemma st_new_ok : st_new np w d k = Ok st_s0.
+Proof.
+  unfold st_new. pose proof (st_set_delays_ok npn 0 (sync_new np w) eq_refl) as E.
+  change (Z.of_nat 0) with 0 in E. unfold npn in E. rewrite E. reflexivity.
+Qed.
+
+Lemma st_s0_inv : forall G,
+  FIa 0 st_s0 /\ st_tie st_s0 /\ CI 0 G st_s0 /\ GI 0 (st_game0 w) /\ HI 0 G (st_history st_s0).
+Proof.
+  intro G. split; [split; [|reflexivity]|split; [|split; [|split]]].
+  - constructor; cbn [st_s0 st_np st_maxpred st_dist st_status st_sync]; auto.
+    + split; [apply repeat_length|]. apply Forall_forall. intros x Hx. apply repeat_spec in Hx. subst. reflexivity.
+    + constructor; cbn [s_maxpred s_current s_queues]; auto.
+      * apply repeat_length.
+      * intros p Hp. rewrite st_nth_repeat by exact Hp. apply (QI_new predict). lia.
+  - unfold st_tie. cbn [st_s0 st_sync st_cells s_cells]. rewrite st_map_repeat. reflexivity.
+  - constructor; cbn [st_s0 st_cells].
+    + apply repeat_length.
+    + apply Forall_forall. intros x Hx. apply repeat_spec in Hx. subst. cbn. unfold NULL. lia.
+    + intros; lia.
+  - constructor; cbn [st_game0 sg_tl sg_cells sg_log].
+    + reflexivity.
+    + apply repeat_length.
+    + intros; lia.
+    + constructor.
+  - intro x. cbn [st_s0 st_history st_hist_get]. unfold st_olddom.
+    assert ((d + 1 <? 0) = false) as -> by lia. reflexivity.
+Qed.
+
+(* ----- small facts used by both run inductions ----- *)
+Lemma st_filter_none {A} (p : A -> bool) : forall l, (forall x, In x l -> p x = false) -> filter p l = [].
+Proof.
+  induction l as [|x r IH]; intro H; cbn; [reflexivity|]. rewrite (H x (or_introl eq_refl)).
+  apply IH. intros y Hy. apply H. right. exact Hy.
+Qed.
+
+Lemma CI_cs_ext : forall c cs cs' s, (forall x, 0 <= x < c -> cs x = cs' x) -> CI c cs s -> CI c cs' s.
+Proof.
+  intros c cs cs' s He [A B C]. constructor; auto. intros Hd0 f Hf Hwin. rewrite (C Hd0 f Hf Hwin).
+  rewrite He by exact Hf. reflexivity.
+Qed.
+
+Lemma HI_ext : forall c fr fr' h, (forall x, st_olddom c x = true -> fr x = fr' x) -> HI c fr h -> HI c fr' h.
+Proof.
+  intros c fr fr' h He H x. rewrite (H x). destruct (st_olddom c x) eqn:E; [|reflexivity].
+  rewrite (He x E). reflexivity.
+Qed.
+
+Lemma st_TLz_length : forall f, Z.of_nat (length (st_TLz f)) = Z.max 0 f.
+Proof. intro f. unfold st_TLz. rewrite st_TL_length. lia. Qed.
+
+(* ----- (a) a deterministic game is never flagged ----- *)
+Section Deterministic.
+Hypothesis Hdet : st_deterministic ck.
+Definition st_G (f : Z) : option Z := ck 0 (st_TLz f).
+
+Lemma st_bad_same : forall c cs, st_bad c cs cs = [].
+Proof.
+  intros c cs. unfold st_bad. destruct ((0 <? d) && (d <? c)); [|reflexivity].
+  apply st_filter_none. intros x _. rewrite (proj2 (st_opt_eqb_eq (cs x) (cs x)) eq_refl).
+  apply andb_false_r.
+Qed.
+
+Lemma st_run_det : forall rest c s g,
+  0 <= c -> skipn (Z.to_nat c) ins = rest ->
+  FIa c s -> st_tie s -> CI c st_G s -> GI c g -> HI c st_G (st_history s) ->
+  exists s' g', st_run predict ck s g rest =
+      RunOk s' g' (map (st_expected_requests np d k ins) (st_zrange c (length rest))) /\
+    FIa (c + Z.of_nat (length rest)) s' /\ GI (c + Z.of_nat (length rest)) g'.
+Proof.
+  induction rest as [|vs rest IH]; intros c s g Hc Hsk F T C G H.
+  - exists s, g. cbn [st_run length st_zrange map]. rewrite Z.add_0_r. auto.
+  - destruct (st_skipn_cons _ _ _ _ [] Hsk) as (Hnth & Hsk' & Hlt).
+    destruct (st_call_step c st_G st_G s g Hc Hlt F T C G H ltac:(reflexivity)) as [_ Hok].
+    destruct (Hok (st_bad_same c st_G)) as (s1 & g1 & Ecall & F1 & T1 & C1 & G1 & H1 & _ & _).
+    rewrite Hnth in Ecall. cbn [st_run]. rewrite Ecall.
+    assert (C1' : CI (c + 1) st_G s1).
+    { eapply CI_cs_ext; [|exact C1]. intros x _. unfold st_vs_after, st_G.
+      destruct ((st_f0 c <=? x) && (x <? st_f0 c + Z.of_nat (st_nsv c))); [apply Hdet|reflexivity]. }
+    destruct (IH (c + 1) s1 g1 ltac:(lia)) as (s' & g' & Erun & F' & G'); auto.
+    { replace (Z.to_nat (c + 1)) with (S (Z.to_nat c)) by lia. exact Hsk'. }
+    rewrite Erun. exists s', g'. cbn [length st_zrange map].
+    replace (c + Z.of_nat (S (length rest))) with (c + 1 + Z.of_nat (length rest)) by lia. auto.
+Qed.
+End Deterministic.
+
+(* ----- (b) a game whose saves of frame F differ is caught at current_frame = max F d + 2 ----- *)
+Lemma st_filter_single {A} (p : A -> bool) : forall l F0, NoDup l -> In F0 l -> p F0 = true ->
+  (forall x, In x l -> x <> F0 -> p x = false) -> filter p l = [F0].
+Proof.
+  induction l as [|y r IH]; intros F0 Hnd Hin HpF Hoth; [destruct Hin|].
+  inversion Hnd as [|? ? Hny Hnd']; subst. cbn [filter]. destruct Hin as [->|Hin].
+  - rewrite HpF. f_equal. apply st_filter_none. intros x Hx. apply Hoth; [right; exact Hx|]. intro; subst. contradiction.
+  - rewrite (Hoth y (or_introl eq_refl)) by (intro; subst; contradiction).
+    apply IH; auto. intros x Hx. apply Hoth. right. exact Hx.
+Qed.
+
+Section Noisy.
+Variable F : Z.
+Hypothesis HF : 2 <= F.
+Hypothesis Hd2 : 2 <= d.
+Hypothesis Hnoisy : st_noisy_at ck F.
+
+Lemma st_G_other : forall n f, f <> F -> ck n (st_TLz f) = st_G f.
+Proof. intros n f Hf. unfold st_G. apply (proj1 Hnoisy). rewrite st_TLz_length. lia. Qed.
+
+Lemma st_F_differs : forall a b, a <> b -> st_opt_eqb (ck a (st_TLz F)) (ck b (st_TLz F)) = false.
+Proof.
+  intros a b Hab. destruct (st_opt_eqb (ck a (st_TLz F)) (ck b (st_TLz F))) eqn:E; [|reflexivity].
+  apply st_opt_eqb_eq in E. exfalso. revert E. apply (proj2 Hnoisy); [rewrite st_TLz_length; lia|exact Hab].
+Qed.
+
+Definition st_M : Z := Z.max F d.
+
+Definition IB (c : Z) (s : st_state) (g : st_game) : Prop :=
+  FIa c s /\ st_tie s /\ GI c g /\
+  exists cs fr, CI c cs s /\ HI c fr (st_history s) /\
+    (forall f, f <> F -> cs f = st_G f /\ fr f = st_G f) /\
+    (F < c -> exists a, (a < sg_saves g)%nat /\ fr F = ck a (st_TLz F) /\
+        (c <= st_M + 1 -> cs F = ck a (st_TLz F)) /\
+        (c = st_M + 2 -> exists b, (a < b)%nat /\ cs F = ck b (st_TLz F))).
+
+Lemma st_noisy_step : forall c s g, 0 <= c <= st_M + 1 -> (Z.to_nat c < length ins)%nat -> IB c s g ->
+  exists s' g', st_call predict ck s g (nth (Z.to_nat c) ins []) = CallOk s' g' (st_expected_requests np d k ins c) /\
+    IB (c + 1) s' g'.
+Proof.
+  intros c s g Hc Hlt (Fa & T & G & cs & fr & C & H & Hoth & HFc).
+  assert (Hd0 : 0 < d) by lia.
+  assert (HeqF : F < c -> fr F = cs F).
+  { intro Hlt'. destruct (HFc Hlt') as (a & _ & E1 & E2 & _). rewrite E1, E2 by lia. reflexivity. }
+  assert (Hnew : 0 < d -> d < c -> forall f, c - d <= f <= c - 1 -> st_olddom c f = false -> fr f = cs f).
+  { intros _ _ f Hf _. destruct (Z.eq_dec f F) as [->|Hne]; [apply HeqF; lia|].
+    destruct (Hoth f Hne) as [-> ->]. reflexivity. }
+  assert (Hbad : st_bad c cs fr = []).
+  { unfold st_bad. destruct ((0 <? d) && (d <? c)); [|reflexivity].
+    apply st_filter_none. intros x _. destruct (st_olddom c x) eqn:Eo; [|reflexivity]. cbn [andb].
+    assert (Ex : fr x = cs x).
+    { destruct (Z.eq_dec x F) as [->|Hne]; [apply HeqF; unfold st_olddom in Eo; lia|].
+      destruct (Hoth x Hne) as [-> ->]. reflexivity. }
+    rewrite Ex, (proj2 (st_opt_eqb_eq (cs x) (cs x)) eq_refl). reflexivity. }
+  destruct (st_call_step c cs fr s g (proj1 Hc) Hlt Fa T C G H Hnew) as [_ Hok].
+  destruct (Hok Hbad) as (s' & g' & Ecall & F' & T' & C' & G' & H' & Hsv & _).
+  exists s', g'. split; [exact Ecall|].
+  destruct (st_f0_nsv c (proj1 Hc) Hd0) as (Hsum & Hf0 & Hn1).
+  set (cs' := st_vs_after (st_nsv c) (st_f0 c) (sg_saves g) cs) in *.
+  set (fr' := fun x => if (x =? F) && (c =? F) then cs' F else fr x).
+  split; [exact F'|]. split; [exact T'|]. split; [exact G'|].
+  exists cs', fr'. split; [exact C'|]. split.
+  { eapply HI_ext; [|exact H']. intros x Hx. subst fr'. cbv beta.
+    destruct ((x =? F) && (c =? F)) eqn:E; [|reflexivity]. unfold st_olddom in Hx. lia. }
+  split.
+  { intros f Hf. split.
+    - subst cs'. unfold st_vs_after.
+      destruct ((st_f0 c <=? f) && (f <? st_f0 c + Z.of_nat (st_nsv c))); [apply st_G_other; exact Hf|apply Hoth; exact Hf].
+    - subst fr'. cbv beta. assert ((f =? F) = false) as -> by lia. cbn [andb]. apply Hoth. exact Hf. }
+  intro HFc1. rewrite Hsv.
+  destruct (Z.eq_dec c F) as [EcF|NcF].
+  - (* the first save of F happens in this call *)
+    exists (sg_saves g + Z.to_nat (F - st_f0 c))%nat.
+    assert (EcsF : cs' F = ck (sg_saves g + Z.to_nat (F - st_f0 c)) (st_TLz F)).
+    { subst cs'. unfold st_vs_after. assert ((st_f0 c <=? F) && (F <? st_f0 c + Z.of_nat (st_nsv c)) = true) as -> by lia. reflexivity. }
+    split; [lia|]. split.
+    + subst fr'. cbv beta. rewrite Z.eqb_refl. assert ((c =? F) = true) as -> by lia. exact EcsF.
+    + split; [intros _; exact EcsF|]. unfold st_M. intro; lia.
+  - assert (Hlt' : F < c) by lia.
+    destruct (HFc Hlt') as (a & Ha & E1 & E2 & _).
+    exists a. split; [lia|]. split.
+    + subst fr'. cbv beta. assert ((c =? F) = false) as -> by lia. rewrite andb_false_r. exact E1.
+    + split.
+      * intro Hle. subst cs'. unfold st_vs_after.
+        assert ((st_f0 c <=? F) && (F <? st_f0 c + Z.of_nat (st_nsv c)) = false) as ->.
+        { assert (Ef : st_f0 c = c) by (unfold st_f0, st_M in *; assert ((0 <? d) && (d <? c) = false) as -> by lia; reflexivity).
+          rewrite Ef. lia. }
+        apply E2. lia.
+      * intro HeM. exists (sg_saves g + Z.to_nat (F - st_f0 c))%nat. split; [lia|].
+        subst cs'. unfold st_vs_after.
+        assert ((st_f0 c <=? F) && (F <? st_f0 c + Z.of_nat (st_nsv c)) = true) as ->.
+        { assert (Ef : st_f0 c = c - d + 1) by (unfold st_f0, st_M in *; assert ((0 <? d) && (d <? c) = true) as -> by lia; reflexivity).
+          rewrite Ef in *. unfold st_M in *. lia. }
+        reflexivity.
+Qed.
+
+Lemma st_noisy_detect : forall s g, (Z.to_nat (st_M + 2) < length ins)%nat -> IB (st_M + 2) s g ->
+  exists s', st_call predict ck s g (nth (Z.to_nat (st_M + 2)) ins []) = CallMismatch s' (st_M + 2) [F].
+Proof.
+  intros s g Hlt (Fa & T & G & cs & fr & C & H & Hoth & HFc).
+  assert (HM : st_M = Z.max F d) by reflexivity.
+  destruct (HFc ltac:(lia)) as (a & Ha & E1 & _ & E3). destruct (E3 eq_refl) as (b & Hab & E2).
+  assert (HoF : st_olddom (st_M + 2) F = true) by (unfold st_olddom; lia).
+  assert (Hbad : st_bad (st_M + 2) cs fr = [F]).
+  { unfold st_bad. assert ((0 <? d) && (d <? st_M + 2) = true) as -> by lia.
+    apply st_filter_single.
+    - apply st_zrange_nodup.
+    - apply st_zrange_in. lia.
+    - rewrite HoF, E1, E2, st_F_differs by lia. reflexivity.
+    - intros x _ Hne. destruct (Hoth x Hne) as [-> ->].
+      rewrite (proj2 (st_opt_eqb_eq (st_G x) (st_G x)) eq_refl). apply andb_false_r. }
+  destruct (st_call_step (st_M + 2) cs fr s g ltac:(lia) Hlt Fa T C G H) as [Hmis _].
+  - intros _ _ f Hf Ho. destruct (Z.eq_dec f F) as [->|Hne]; [congruence|].
+    destruct (Hoth f Hne) as [-> ->]. reflexivity.
+  - rewrite Hbad in Hmis. apply Hmis. discriminate.
+Qed.
+
+Lemma st_run_noisy : forall n c s g rest,
+  0 <= c -> c + Z.of_nat n = st_M + 2 -> skipn (Z.to_nat c) ins = rest ->
+  (Z.to_nat (st_M + 2) < length ins)%nat -> IB c s g ->
+  exists s', st_run predict ck s g rest =
+    RunStop (map (st_expected_requests np d k ins) (st_zrange c n)) (CallMismatch s' (st_M + 2) [F]).
+Proof.
+  induction n as [|n IH]; intros c s g rest Hc Hsum Hsk Hlen I.
+  - assert (c = st_M + 2) by lia. subst c.
+    destruct rest as [|vs rest]; [exfalso; apply (f_equal (@length _)) in Hsk; rewrite skipn_length in Hsk; cbn in Hsk; lia|].
+    destruct (st_skipn_cons _ _ _ _ [] Hsk) as (Hnth & _ & _).
+    destruct (st_noisy_detect s g Hlen I) as (s' & E). rewrite Hnth in E.
+    exists s'. cbn [st_run st_zrange map]. rewrite E. reflexivity.
+  - destruct rest as [|vs rest]; [exfalso; apply (f_equal (@length _)) in Hsk; rewrite skipn_length in Hsk; cbn in Hsk; lia|].
+    destruct (st_skipn_cons _ _ _ _ [] Hsk) as (Hnth & Hsk' & Hlt).
+    destruct (st_noisy_step c s g ltac:(lia) Hlt I) as (s1 & g1 & E & I1). rewrite Hnth in E.
+    destruct (IH (c + 1) s1 g1 rest ltac:(lia) ltac:(lia)) as (s' & Er); auto.
+    { replace (Z.to_nat (c + 1)) with (S (Z.to_nat c)) by lia. exact Hsk'. }
+    exists s'. cbn [st_run st_zrange map]. rewrite E, Er. reflexivity.
+Qed.
+
+Lemma IB_init : IB 0 st_s0 (st_game0 w).
+Proof.
+  destruct (st_s0_inv st_G) as (A & B & C & D & E).
+  split; [exact A|]. split; [exact B|]. split; [exact D|].
+  exists st_G, st_G. split; [exact C|]. split; [exact E|]. split; [intros; auto|]. intro; lia.
+Qed.
+
+End Noisy.
 
 End Run.
